@@ -113,7 +113,10 @@ class FoldUnit:
             elif kind == 'site':         # no hypothesis: only carries the site marker
                 pass
             elif kind == 'before_call':  # assume(len [+ sum var*scale] > room) immediately before the nth call to callee, then the site marker
-                pat = re.compile(r'^\s+(?:%%[\w.]+ = )?(?:tail |musttail |notail )?call [^@\n]*@%s\(' % re.escape(h['callee']))
+                if h['callee'] == '<store>':
+                    pat = re.compile(r'^\s+store ')
+                else:
+                    pat = re.compile(r'^\s+(?:%%[\w.]+ = )?(?:tail |musttail |notail )?call [^@\n]*@%s\(' % re.escape(h['callee']))
                 ks = [j for j, l in enumerate(lines) if pat.match(l)]
                 if h['nth'] >= len(ks):
                     raise AnalysisBroken('call #%d to %s not found in the IR text of %s' % (h['nth'], h['callee'], fname))
@@ -122,7 +125,9 @@ class FoldUnit:
                 hn = '%%verif.b%d' % hcount[0]
                 ins = []
                 cur = h['len']
-                if h['lty'] != 'i64':
+                if cur is None:
+                    cur = str(h.get('lenconst', 0))
+                elif h['lty'] != 'i64':
                     ins.append('  %s.z = zext %s %s to i64' % (hn, h['lty'], cur))
                     cur = hn + '.z'
                 for q, (vn, vty, sc) in enumerate(h.get('var', [])):
